@@ -128,7 +128,7 @@ func one(raw json.RawMessage) interface{} {
 		panic(err)
 	}
 	normalize(&c.Input)
-	rec := Record{Case: c.Case, Input: c.Input}
+	rec := Record{Case: c.Case, Input: c.Input, Machine: c.Machine}
 	root, files, cleanup := materialize(c.Input)
 	defer cleanup()
 	rec.Rendered = files
@@ -210,7 +210,7 @@ func abnormal(raw json.RawMessage, timeout bool, stderr string) interface{} {
 	o.Unused.Panic = true
 	o.Table.Panic = true
 	o.Note = short(stderr)
-	return Record{Case: c.Case, Input: c.Input, Observed: o}
+	return Record{Case: c.Case, Input: c.Input, Observed: o, Machine: c.Machine}
 }
 
 func main() {
